@@ -185,6 +185,66 @@ theorem write_unchecked_panics {dbg : Bool} {m : Memory} {p : Nat} {val : List U
     rw [hp] at hp'; cases hp'
     exact hbad fr al hf hid ha ⟨hb, hal⟩
 
+/-! ### raw addresses (`Memory::get`) -/
+
+/-- **T2 (get).** The raw address handed to clone / drop / eq and runtime functions is only produced
+    for a pointer the memory handed out, into the live frame it was created in, at a byte that
+    exists in its allocation.  (The extent of the native access behind the address is not known to
+    the evaluator and is outside the model.) -/
+theorem get_checked {dbg : Bool} {m : Memory} {p : Nat} {r : RawPtr}
+    (h : Memory.get dbg m p = .ok r) :
+    (∃ g, m.pointers[p]? = some (.Global g))
+    ∨ ∃ lp fr al, m.pointers[p]? = some (.Local lp)
+        ∧ m.stack[lp.stack_index]? = some fr ∧ fr.id = lp.stack_id
+        ∧ fr.allocations[lp.allocation_index]? = some al
+        ∧ lp.allocation_offset < al.inner.length := by
+  res_unfold [Memory.get] at h
+  obtain ⟨ptr, hp, h⟩ := h
+  have hp := index_ok hp
+  cases ptr with
+  | Global g => exact Or.inl ⟨g, hp⟩
+  | Local lp =>
+    right
+    res_unfold [StackFrame.get, Allocation.get] at h
+    obtain ⟨fr, hf, hid, al, ha, b, hb, _⟩ := h
+    have hb := index_ok hb
+    have hlt : lp.allocation_offset < al.inner.length := by
+      rcases Nat.lt_or_ge lp.allocation_offset al.inner.length with h | h
+      · exact h
+      · rw [List.getElem?_eq_none h] at hb; cases hb
+    exact ⟨lp, fr, al, hp, index_ok hf, hid, index_ok ha, hlt⟩
+
+/-- The tree as it was before `fix: Memory::get …`: `get` went to the frame at the pointer's stack
+    index without comparing frame ids (frozen transliteration of the old source, kept for the
+    refutation below; the generated `Memory.get` above is the current source). -/
+def getBeforeFix (dbg : Bool) (self_ : Memory) (p : Nat) : Res RawPtr := do
+  let p ← RIndex.index self_.pointers p
+  match p with
+  | .Local p => do
+    let frame ← RIndex.index self_.stack p.stack_index
+    StackFrame.get dbg frame p
+  | .Global p => pure p.ptr
+
+/-- push a frame, allocate 8 bytes (pointer 0), pop, push again, allocate 8 bytes -/
+def danglingDemo : Res Memory := do
+  let m ← Memory.default true
+  let m ← Memory.push_frame true m 0 none
+  let (m, _) ← Memory.allocate true m 8
+  let (m, _) ← Memory.pop_frame true m
+  let m ← Memory.push_frame true m 0 none
+  let (m, _) ← Memory.allocate true m 8
+  pure m
+
+/-- **Refutation on the tree before the fix** (replayed on the real code by the harness, key
+    `mem get dangling`, history `u a8 p u a8 g0`): pointer 0 refers to a frame that was popped, a new
+    frame sits at the same depth, and `get` handed out an address inside the NEW frame's allocation
+    instead of stopping.  With the fix it panics. -/
+theorem get_before_fix_hands_out_dangling :
+    (danglingDemo >>= fun m => getBeforeFix true m 0) = .ok (.byte 0)
+    ∧ (danglingDemo >>= fun m => Memory.get true m 0) = .panic
+    ∧ (danglingDemo >>= fun m => Memory.read_slice true m 0 1) = .panic := by
+  decide
+
 /-! ### allocation, pointer arithmetic -/
 
 /-- **T2 (allocate).** `allocate n` appends an allocation of EXACTLY `n` zero bytes to the newest
@@ -377,17 +437,26 @@ theorem dead_stays_dead {dbg : Bool} {m m' : Memory} {id : Nat} (h : Step dbg m 
     · exact hne' hi
     · simp only [List.mem_singleton] at hi; omega
 
-/-- **T2 (dangling).** Through a pointer whose frame id is dead, reads and writes panic — now and
+/-- **T2 (dangling).** Through a pointer whose frame id is dead, reads, writes and raw addresses panic — now and
     after any further steps (`dead_stays_dead`). -/
 theorem dangling_panics {dbg : Bool} {m : Memory} {p : Nat} {lp : LocalPointer}
     (hp : m.pointers[p]? = some (.Local lp)) (hd : DeadId m lp.stack_id) (size : Nat) (val : List UInt8) :
-    Memory.read_slice dbg m p size = .panic ∧ Memory.write dbg m p val = .panic := by
+    Memory.read_slice dbg m p size = .panic ∧ Memory.write dbg m p val = .panic
+      ∧ Memory.get dbg m p = .panic := by
   have hbad : ∀ (n : Nat) (fr : StackFrame) (al : Allocation), m.stack[lp.stack_index]? = some fr → fr.id = lp.stack_id →
       fr.allocations[lp.allocation_index]? = some al →
       ¬ (lp.allocation_offset + n ≤ al.inner.length ∧ Usize.is_multiple_of lp.allocation_offset n = true) := by
     intro n fr al hf hid _ _
     exact hd.2 fr (List.mem_of_getElem? hf) hid
-  exact ⟨read_unchecked_panics hp (hbad size), write_unchecked_panics hp (hbad val.length)⟩
+  refine ⟨read_unchecked_panics hp (hbad size), write_unchecked_panics hp (hbad val.length), ?_⟩
+  cases h : Memory.get dbg m p with
+  | panic => rfl
+  | ok r =>
+    exfalso
+    rcases get_checked h with ⟨g, hg⟩ | ⟨lp', fr, al, hp', hf, hid, _⟩
+    · rw [hp] at hg; cases hg
+    · rw [hp] at hp'; cases hp'
+      exact hd.2 fr (List.mem_of_getElem? hf) hid
 
 
 /-! ### T3: `Switch` -/
@@ -577,6 +646,51 @@ theorem call_binds_positionally {α : Type} (params : List Nat) (args : List α)
 
 /-- non-vacuity: three parameters, three distinct arguments. -/
 example : eval_Call_bindings (some [10, 11, 12]) ["a", "b", "c"] = [(10, "a"), (11, "b"), (12, "c")] := by
+  decide
+
+/-! ### call / return: frames are balanced and execution resumes after the call -/
+
+/-- **Call/Return.** A `Return` that follows a `Call` made at program counter `pc` with destination
+    `to` (whatever the callee allocated in its frame in between is gone with the frame): the caller's
+    stack is back, execution continues at `pc + 1`, and the returned value goes to `to` — as the
+    compiled `call` instruction falls through with the result.  In the root frame `Return` ends the
+    evaluation with the value. -/
+theorem call_then_return (dbg : Bool) (m m1 : Memory) (pc : Nat) (to : Option Nat) (val : Option IrValue)
+    (hne : m.stack ≠ [])
+    (hc : eval_Call_frame dbg m pc to = .ok m1) :
+    ∃ m2, m2.stack = m.stack ∧ m2.pointers = m1.pointers ∧
+      (match val, to with
+        | some _, none => eval_Return dbg m1 val = .panic
+        | some v, some t => eval_Return dbg m1 val = .ok (m2, .resume (pc + 1) (some (t, v)))
+        | none, _ => eval_Return dbg m1 val = .ok (m2, .resume (pc + 1) none)) := by
+  have h1 := push_frame_spec hc
+  subst h1
+  have hlen : m.stack.length ≠ 0 := by
+    cases hs : m.stack with
+    | nil => exact absurd hs hne
+    | cons a rest => simp
+  refine ⟨{ m with id_counter := m.id_counter + 1 }, rfl, rfl, ?_⟩
+  cases val with
+  | none =>
+    simp [eval_Return, Memory.pop_frame, REq.eq, Vec.len, Vec.pop, hlen]
+  | some v =>
+    cases to with
+    | none => simp [eval_Return, Memory.pop_frame, REq.eq, Vec.len, Vec.pop, hlen]
+    | some t => simp [eval_Return, Memory.pop_frame, REq.eq, Vec.len, Vec.pop, hlen]
+
+/-- in the root frame `Return` ends the evaluation with the value -/
+theorem return_from_root (dbg : Bool) (m : Memory) (val : Option IrValue) (h1 : m.stack.length = 1) :
+    eval_Return dbg m val = .ok (m, .finish val) := by
+  have hpop : Memory.pop_frame dbg m = .ok (m, none) := by
+    simp [Memory.pop_frame, REq.eq, Vec.len, h1]
+  simp [eval_Return, hpop]
+
+/-- non-vacuity: a call at program counter 41 into `to = 7`, returning `u32 5`. -/
+example :
+    (do let m ← Memory.default true
+        let m ← eval_Call_frame true m 41 (some 7)
+        let (_, fl) ← eval_Return true m (some (.U32 ⟨5⟩))
+        pure fl) = .ok (.resume 42 (some (7, .U32 ⟨5⟩))) := by
   decide
 
 /-! ### summary and non-vacuity -/
